@@ -409,6 +409,25 @@ func (g *node1Gen) step() error {
 		v := rpcResponse{response: &voteResp{resp{term, result, nil}}, from: g.pick(2, 3)}
 		pv := n.voteResult(v)
 		g.emit("voteResult", fmt.Sprintf("(EVoteResult %d %d)", term, uint8(result)), pre, simResp{panicv: pv})
+	case c < 94 && !r.configs.IsBootstrapped() && (c >= 88 || r.term == 0 && c >= 70):
+		// a bootstrap task on a node that has no configuration yet (it may have voted already)
+		nodes := map[uint64]Node{}
+		for id := uint64(1); id <= 3; id++ {
+			nodes[id] = Node{ID: id, Addr: fmt.Sprintf("M%d:8888", id), Voter: true}
+		}
+		nodes[r.nid] = Node{ID: r.nid, Addr: fmt.Sprintf("M%d:8888", r.nid), Voter: true}
+		cfg := Config{Nodes: nodes}
+		t := ChangeConfig(cfg).(changeConfig)
+		var pv interface{}
+		func() {
+			defer func() { pv = recover() }()
+			r.executeTask(t)
+			n.settle()
+		}()
+		g.emit("bootstrap", fmt.Sprintf("(ETask (TChangeConfig 0 %s))", coqConfig(cfg)), pre, simResp{panicv: pv})
+		if pv != nil {
+			return g.restart(false)
+		}
 	case c < 94:
 		id := g.pick(2, 3, r.leader)
 		n.disconnected(id)
